@@ -7,7 +7,11 @@
 (* as 4 limbs of base 2^16, most significant first; the contract's address     *)
 (* arithmetic is instantiated with the limb operators of HeapLimbs.            *)
 (*                                                                             *)
-(*   Alloc     arg {h, size, align}      obs {skipped, p}                      *)
+(*   Alloc     arg {h, size, align}      obs {skipped, p, thrown}              *)
+(*             (arg.es / arg.via select the typed overload or aligned_allocator<T>::allocate; thrown = "" or the *)
+(*             exception allocate threw - bad_alloc counts as a null answer; arg.t = the calling thread, which    *)
+(*             the contract does not depend on)                                *)
+(*   Burst     arg {n, size, align}      obs {ps, nulls, bad}   ps sorted by address *)
 (*   Free      arg {h}                   obs {skipped, p}   p = address passed to alignedFree *)
 (*   Check     arg {h}                   obs {skipped, bad} bad = bytes differing from the pattern *)
 (*   CheckAll  arg {}                    obs {blocks: <<<<h, bad>>, ...>>}     *)
@@ -43,23 +47,30 @@ WellFormed(ln) ==
   /\ (ln.a \in Slotted => ln.arg.h \in Handles)
   /\ (ln.a = "Alloc" => L!IsNumL(ln.arg.size) /\ ln.arg.align \in {1, 2, 4, 8, 16, 32, 64, 128, 256, 512, 1024, 2048, 4096})
   /\ (ln.a \in {"Alloc", "Free"} /\ ~Skipped(ln) => L!IsNumL(ln.obs.p))
+  /\ (ln.a = "Burst" => L!IsNumL(ln.arg.size) /\ \A i \in 1..Len(ln.obs.ps) : L!IsNumL(ln.obs.ps[i]))
+
+\* requests made through aligned_allocator<T>::allocate are all within max_size(): the only exception the property
+\* allows is bad_alloc (no memory = the null answer); length_error here would be the guard firing on a legal request
+ThrownOK(ln) == ln.obs.thrown = "" \/ (ln.obs.thrown = "bad_alloc" /\ LIsNull(ln.obs.p))
 
 Ok(ln) ==
   CASE Skipped(ln)        -> SkipOK(ln.a, ln.arg.h)
-    [] ln.a = "Alloc"     -> AllocOK(ln.arg.h, ln.arg.size, ln.arg.align, ln.obs.p)
+    [] ln.a = "Alloc"     -> AllocOK(ln.arg.h, ln.arg.size, ln.arg.align, ln.obs.p) /\ ThrownOK(ln)
     [] ln.a = "Free"      -> FreeOK(ln.arg.h, ln.obs.p)
     [] ln.a = "Check"     -> CheckOK(ln.arg.h, ln.obs.bad)
     [] ln.a = "CheckAll"  -> CheckAllOK(ln.obs.blocks)
+    [] ln.a = "Burst"     -> BurstOK(ln.arg.n, ln.arg.size, ln.arg.align, ln.obs.ps, ln.obs.nulls, ln.obs.bad)
     [] ln.a = "LeakCheck" -> LeakCheckOK(ln.obs.leaked)
     [] ln.a = "Churn"     -> ChurnOK(ln.arg.size_kb, ln.arg.cycles, ln.obs.nonnull, ln.obs.retained_kb)
     [] OTHER              -> FALSE
 
 Why(ln) ==
   CASE Skipped(ln)        -> "client-skipped-a-legal-call"
-    [] ln.a = "Alloc"     -> AllocWhy(ln.arg.h, ln.arg.size, ln.arg.align, ln.obs.p)
+    [] ln.a = "Alloc"     -> IF ThrownOK(ln) THEN AllocWhy(ln.arg.h, ln.arg.size, ln.arg.align, ln.obs.p) ELSE "threw-" \o ln.obs.thrown
     [] ln.a = "Free"      -> FreeWhy(ln.arg.h, ln.obs.p)
     [] ln.a = "Check"     -> CheckWhy(ln.arg.h, ln.obs.bad)
     [] ln.a = "CheckAll"  -> CheckAllWhy(ln.obs.blocks)
+    [] ln.a = "Burst"     -> BurstWhy(ln.arg.n, ln.arg.size, ln.arg.align, ln.obs.ps, ln.obs.nulls, ln.obs.bad)
     [] ln.a = "LeakCheck" -> LeakCheckWhy(ln.obs.leaked)
     [] ln.a = "Churn"     -> ChurnWhy(ln.arg.size_kb, ln.arg.cycles, ln.obs.nonnull, ln.obs.retained_kb)
     [] OTHER              -> ln.a
